@@ -350,7 +350,7 @@ class SizeCase:
 
     def label(self):
         parts = ["%r > 0" % (a,) for a in self.assume] + ["%s = %r" % (n, b) for n, b in self.subs]
-        parts += [("%s %s 0" % (n, "!=" if nz else "==")) if not n.startswith(("[", "may_share", "allclose")) else ("%s %s" % (n, "holds" if nz else "does not hold"))
+        parts += [("%s %s 0" % (n, "!=" if nz else "==")) if not n.startswith(("[", "may_share", "allclose", "any(")) else ("%s %s" % (n, "holds" if nz else "does not hold"))
                   for n, nz in self.decisions]
         return ", ".join(parts)
 
@@ -411,7 +411,7 @@ def set_case(case):
     for n, b in case.subs:
         poly.SYM_SUBS[n] = b.poly()
     for n, nz in case.decisions:
-        if not nz and not n.startswith(("[", "may_share", "allclose")):
+        if not nz and not n.startswith(("[", "may_share", "allclose", "any(")):
             poly.SYM_SUBS[n] = Poly()        # the reduction is zero on this path
     for reg in CASE_CACHES:
         reg.clear()
@@ -439,6 +439,10 @@ def run_under_size_cases(fn, opt_in, max_cases=27, max_depth=3):
             except NeedDecision as nd:
                 if not opt_in:
                     raise
+                if nd.key.startswith("any("):
+                    # (knowing that an array is identically zero matters to every later comparison on that path: handled only
+                    # where both paths of ONE kernel call can be compared, see props.common.summarize_with_shortcuts)
+                    raise Unsupported("branch on whether an input array has a non-zero element, outside a catalogue kernel: %s" % nd.text)
                 if case.depth() >= max_depth or len(work) + len(done) >= max_cases:
                     raise Unsupported("too many cases (last undecided condition %s under [%s])" % (nd.text, case.label()))
                 work.extend(case.decide(nd.key))
